@@ -159,6 +159,12 @@ for t_i in range(2 if Q else 12):
     views, block, probe = setup["views"], setup["block"], setup["probe"]
     numel = probe.numelements
     tx, rx = arim.ut.fmc(numel)
+    # the full matrix may be stored in any order (transmitter-major as ut.fmc, receiver-major, shuffled)
+    order_ = [np.arange(len(tx)), np.lexsort((tx, rx)), rng.permutation(len(tx))][t_i % 3]
+    tx, rx = np.asarray(tx)[order_], np.asarray(rx)[order_]
+    pair_index = {(int(a), int(b)): k for k, (a, b) in enumerate(zip(tx, rx))}
+    fwd_idx = np.array([[pair_index[(i, j)] for j in range(numel)] for i in range(numel)])      # [i, j] -> timetrace (i -> j)
+    chk.count(pipeline_fmc_order=["tx-major", "rx-major", "shuffled"][t_i % 3])
     freq = setup["freq"]
     kinds = [("sdh", lambda: scat.scat_factory("sdh", block, radius=0.4e-3))]
     if t_i == 0 or not Q:
@@ -188,8 +194,8 @@ for t_i in range(2 if Q else 12):
             for (vn, a), fbin in itertools.product(tfs.items(), range(len(freqs))):
                 scale = max(float(np.nanmax(np.abs(x[..., fbin]))) for x in tfs.values()) or 1.0
                 rvn = arim.ut.reciprocal_viewname(vn)
-                A = a[..., fbin].reshape(a.shape[0], numel, numel)
-                Bt = np.transpose(tfs[rvn][..., fbin].reshape(a.shape[0], numel, numel), (0, 2, 1))
+                A = a[..., fbin][:, fwd_idx]                                  # [g, i, j] = timetrace (i -> j)
+                Bt = tfs[rvn][..., fbin][:, fwd_idx.T]                        # [g, i, j] = timetrace (j -> i) of the reciprocal view
                 ok_mask = np.isfinite(A) & np.isfinite(Bt)
                 if not ok_mask.any():
                     continue
@@ -212,15 +218,19 @@ for t_i in range(2 if Q else 12):
 # pair lists.  The coefficient of timetrace k (tx_k -> rx_k) in view X-Y must equal the coefficient
 # of the swapped timetrace (rx_k -> tx_k) in the reciprocal view, whatever the list of pairs.
 # ---------------------------------------------------------------------------
-for t_i in range(4 if Q else 40):
+for t_i in range(5 if Q else 40):
     setup = arimgen.immersion_setup(rng, max_refl=int(rng.integers(0, 2)), wall_points=80,
                                     numelements=int(rng.integers(2, 6)), numscat=int(rng.integers(2, 4)),
                                     attenuation=bool(rng.integers(0, 2)))
     views, block, probe, freq = setup["views"], setup["block"], setup["probe"], setup["freq"]
     numel = probe.numelements
     vl, vt = block.longitudinal_vel, block.transverse_vel
-    cap = ["one-transmitter", "single-timetrace", "hmc", "random-pairs"][t_i % 4]
-    if cap == "one-transmitter":
+    cap = ["one-transmitter", "single-timetrace", "hmc", "random-pairs", "pulse-echo"][t_i % 5]
+    if cap == "pulse-echo":
+        tx = rx = np.arange(numel)
+        if rng.random() < 0.5:
+            rx = rx.copy()                  # equal values, two array objects
+    elif cap == "one-transmitter":
         tx = np.full(numel, int(rng.integers(0, numel))); rx = np.arange(numel)
     elif cap == "single-timetrace":
         tx = np.array([int(rng.integers(0, numel))]); rx = np.array([int(rng.integers(0, numel))])
